@@ -1,7 +1,206 @@
 use crate::util::*;
 use std::io::Write;
 
-pub fn generate2(prop: &str, _tier: &str, _rng: &mut Rng, _w: &mut dyn Write) {
-    eprintln!("harness: no generator for {}", prop);
-    std::process::exit(2);
+pub fn generate2(prop: &str, tier: &str, rng: &mut Rng, w: &mut dyn Write) {
+    match prop {
+        "C01" | "C07" => gen_eval(prop, tier, rng, w),
+        _ => {
+            eprintln!("harness: no generator for {}", prop);
+            std::process::exit(2);
+        }
+    }
+}
+
+fn emit_hand(w: &mut dyn Write, cards: &[usize]) {
+    let s: Vec<String> = cards.iter().map(|c| c.to_string()).collect();
+    writeln!(w, "eval7 {}", s.join(" ")).unwrap();
+}
+
+/// all rank-count vectors (13 digits <= 4, sum 7): one non-flush hand per AS_RAINBOW slot
+fn rainbow_hands(out: &mut Vec<Vec<usize>>) {
+    fn rec(rank: usize, left: usize, cur: &mut Vec<usize>, out: &mut Vec<Vec<usize>>) {
+        if left == 0 {
+            // suits round-robin: consecutive cards get different suits, no suit more than twice
+            let cards: Vec<usize> = cur.iter().enumerate().map(|(j, r)| r * 4 + (j % 4)).collect();
+            out.push(cards);
+            return;
+        }
+        if rank == 13 {
+            return;
+        }
+        for k in 0..=std::cmp::min(4, left) {
+            for _ in 0..k {
+                cur.push(rank);
+            }
+            rec(rank + 1, left - k, cur, out);
+            for _ in 0..k {
+                cur.pop();
+            }
+        }
+    }
+    rec(0, 7, &mut vec![], out);
+}
+
+/// one hand per reachable AS_FLUSH slot (masks with 5..7 bits): flush in a seeded suit, fill from other suits
+fn flush_hands(rng: &mut Rng, out: &mut Vec<Vec<usize>>) {
+    for mask in 0u32..8192 {
+        let pc = mask.count_ones() as usize;
+        if !(5..=7).contains(&pc) {
+            continue;
+        }
+        let suit = rng.below(4) as usize;
+        let mut cards: Vec<usize> = (0..13).filter(|r| mask >> (12 - r) & 1 == 1).map(|r| r * 4 + suit).collect();
+        while cards.len() < 7 {
+            let c = rng.below(52) as usize;
+            if c % 4 != suit && !cards.contains(&c) {
+                cards.push(c);
+            }
+        }
+        out.push(cards);
+    }
+}
+
+/// a seven-card hand containing a five-card hand of the given category (0 high card .. 8 straight flush)
+fn hand_of_category(cat: usize, rng: &mut Rng) -> Vec<usize> {
+    let mut cards: Vec<usize> = vec![];
+    let rk = |rng: &mut Rng, k: usize| -> Vec<usize> { rng.distinct(k, 13).into_iter().map(|x| x as usize).collect() };
+    match cat {
+        8 | 4 => {
+            // straight (flush): top 0..=9 (9 = wheel)
+            let top = rng.below(10) as usize;
+            let ranks: Vec<usize> = if top == 9 { vec![0, 9, 10, 11, 12] } else { (top..top + 5).collect() };
+            let s = rng.below(4) as usize;
+            for (j, r) in ranks.iter().enumerate() {
+                cards.push(r * 4 + if cat == 8 { s } else { (s + (j % 2)) % 4 });
+            }
+        }
+        7 => {
+            let r = rk(rng, 1);
+            for s in 0..4 {
+                cards.push(r[0] * 4 + s);
+            }
+        }
+        6 => {
+            let r = rk(rng, 2);
+            let ss = rng.distinct(3, 4);
+            for s in ss {
+                cards.push(r[0] * 4 + s as usize);
+            }
+            let ss = rng.distinct(2, 4);
+            for s in ss {
+                cards.push(r[1] * 4 + s as usize);
+            }
+        }
+        5 => {
+            let r = rk(rng, 5);
+            let s = rng.below(4) as usize;
+            for x in r {
+                cards.push(x * 4 + s);
+            }
+        }
+        3 => {
+            let r = rk(rng, 1);
+            for s in rng.distinct(3, 4) {
+                cards.push(r[0] * 4 + s as usize);
+            }
+        }
+        2 => {
+            let r = rk(rng, 2);
+            for x in r {
+                for s in rng.distinct(2, 4) {
+                    cards.push(x * 4 + s as usize);
+                }
+            }
+        }
+        1 => {
+            let r = rk(rng, 1);
+            for s in rng.distinct(2, 4) {
+                cards.push(r[0] * 4 + s as usize);
+            }
+        }
+        _ => {}
+    }
+    while cards.len() < 7 {
+        let c = rng.below(52) as usize;
+        if !cards.contains(&c) {
+            cards.push(c);
+        }
+    }
+    rng.shuffle(&mut cards);
+    cards
+}
+
+fn permutations(v: &[usize]) -> Vec<Vec<usize>> {
+    // Heap's algorithm
+    let mut a = v.to_vec();
+    let n = a.len();
+    let mut c = vec![0usize; n];
+    let mut out = vec![a.clone()];
+    let mut i = 0;
+    while i < n {
+        if c[i] < i {
+            if i % 2 == 0 {
+                a.swap(0, i);
+            } else {
+                a.swap(c[i], i);
+            }
+            out.push(a.clone());
+            c[i] += 1;
+            i = 0;
+        } else {
+            c[i] = 0;
+            i += 1;
+        }
+    }
+    out
+}
+
+fn gen_eval(prop: &str, tier: &str, rng: &mut Rng, w: &mut dyn Write) {
+    let thorough = tier == "thorough";
+    // 1. every reachable table slot: 49,205 rank-count vectors + 4,719 flush masks, each in a seeded order
+    let mut hands: Vec<Vec<usize>> = vec![];
+    rainbow_hands(&mut hands);
+    flush_hands(rng, &mut hands);
+    for h in hands.iter_mut() {
+        rng.shuffle(h);
+        emit_hand(w, h);
+    }
+    // 2. stratified by category, several seeded orders each
+    let per_cat = if thorough { 40000 } else if prop == "C07" { 1500 } else { 4000 };
+    for cat in 0..9 {
+        for _ in 0..per_cat {
+            let h = hand_of_category(cat, rng);
+            emit_hand(w, &h);
+        }
+    }
+    // 3. flush completing at the 5th, 6th, 7th card: flush cards first / last / interleaved
+    for i in 0..(if thorough { 20000 } else { 2000 }) {
+        let mut h = hand_of_category(5, rng);
+        let suit_of_flush = {
+            let mut cnt = [0; 4];
+            for c in &h {
+                cnt[c % 4] += 1;
+            }
+            (0..4).max_by_key(|s| cnt[*s]).unwrap()
+        };
+        match i % 3 {
+            0 => h.sort_by_key(|c| (c % 4 != suit_of_flush) as u8),
+            1 => h.sort_by_key(|c| (c % 4 == suit_of_flush) as u8),
+            _ => {}
+        }
+        emit_hand(w, &h);
+    }
+    // 4. all 5040 presentation orders of some hands (one per category + seeded)
+    let nperm = if thorough { 2000 } else if prop == "C07" { 9 } else { 36 };
+    for i in 0..nperm {
+        let h = hand_of_category(i % 9, rng);
+        for p in permutations(&h) {
+            emit_hand(w, &p);
+        }
+    }
+    // 5. uniform random hands
+    for _ in 0..(if thorough { 2_000_000 } else { 20_000 }) {
+        let h: Vec<usize> = rng.distinct(7, 52).into_iter().map(|x| x as usize).collect();
+        emit_hand(w, &h);
+    }
 }
